@@ -85,6 +85,11 @@ def cases(tier, rng):
     yield {'sep': ',', 'esc': '\\', 'types': ['float', 'int'], 'rows': [[fl(-1.5), -3], [fl(-0.5), 0], [fl(-0.0), 7]], 'file': False, 'encoding': None}
     yield {'sep': ',', 'esc': '\\', 'types': ['str', 'int'], 'rows': [['a', 1]], 'file': True, 'encoding': None}
     yield {'sep': ';', 'esc': '^', 'types': ['str'], 'rows': [['trail;'], [';'], ['^"'], ['"']], 'file': False, 'encoding': None}
+    # files larger than the 64 KiB read chunk whose multi-byte characters straddle every read boundary: the text is shifted
+    # byte by byte so that each of the boundaries 65536 and 131072 falls on every byte of a 2-, 3- and 4-byte character
+    for shift in range(4):
+        yield {'sep': ',', 'esc': '\\', 'types': ['str', 'int'], 'rows': [['x' * shift, 0]] + [['é€😀' * 6, i] for i in range(2300)],
+               'file': True, 'encoding': None if shift % 2 else 'utf-8'}
     n = {'quick': 500, 'thorough': 12000, 'search': 600}[tier]
     for _ in range(n):
         yield gen_case(rng, tier)
